@@ -35,10 +35,14 @@ def slices(tier):
     return sl
 
 
-def kwargs_of(P, transforms):
-    from ..build import AW
+# traffic-light rendering of the abstract labels (the filter must treat the two label families alike)
+TL_OF = {"car": "green", "pedestrian": "red", "bus": "yellow", "unknown": "unknown", "false_positive": "false_positive"}
 
-    kw = dict(target_labels=[AW[t] for t in P["targets"]] if P["targets"] else None)
+
+def kwargs_of(P, transforms, tl=False):
+    from ..build import AW, TL
+
+    kw = dict(target_labels=[(TL[TL_OF[t]] if tl else AW[t]) for t in P["targets"]] if P["targets"] else None)
     kw["ignore_attributes"] = [ATTR] if P["ignoreAttr"] else None
     for a, b in (("xmax", "max_x_position_list"), ("ymax", "max_y_position_list"), ("dmax", "max_distance_list"), ("dmin", "min_distance_list")):
         kw[b] = [v / 2.0 for v in P[a]] if P[a] else None
@@ -56,8 +60,8 @@ def build_objs(objs, rendering, ego):
     for i, o in enumerate(objs):
         uu = ("in%d" if o["uuid"] else "out%d") % (i + 1)
         attrs, nm = pipeline.attr_kwargs(o["attr"], o["label"])
-        if rendering == "2d":
-            ob = obj2d((5, 5), label=o["label"], score=o["conf"] / 100.0, uuid=uu, vid=i + 1)
+        if rendering in ("2d", "2d_tl"):
+            ob = obj2d((5, 5), label=TL_OF[o["label"]] if rendering == "2d_tl" else o["label"], score=o["conf"] / 100.0, uuid=uu, vid=i + 1, tl=rendering == "2d_tl")
             ob.semantic_label.attributes = attrs
             ob.semantic_label.name = nm
             ob.pointcloud_num = o["pts"]
@@ -81,13 +85,14 @@ def replay_filter(arg):
     renders = [("base_link", None, None), ("base_link", egos[0], egos[0].transforms()), ("map", egos[1], egos[1].transforms())]
     if not has_pos and not P["minPts"]:
         renders.append(("2d", None, None))
+        renders.append(("2d_tl", None, None))
     mism = []
     n = 0
     for rendering, ego, tf in renders:
         n += 1
         real = build_objs(objs, rendering, ego)
         real0 = list(real)
-        kw = kwargs_of(P, tf)
+        kw = kwargs_of(P, tf, tl=rendering == "2d_tl")
         rep = {"objs": objs, "is_gt": is_gt, "P": P, "rendering": rendering, "spec": out}
         try:
             kept = filter_objects(real, is_gt, **kw)
@@ -110,7 +115,7 @@ def replay_filter(arg):
         if any(a is not real0[vid(a) - 1] for a in kept):
             mism.append(("not-a-sublist", "returned objects are not the input objects", rep))
         # filter_object_results on (estimate 2k-1, ground truth 2k) pairs
-        if rendering != "2d":
+        if rendering not in ("2d", "2d_tl"):
             prs = []
             for k in range((len(real) + 1) // 2):
                 e = real[2 * k]
